@@ -26,6 +26,13 @@ Decides (from the syntax trees of ci/ci/*.py, nothing is run):
       'approved' only under `<reviewDecision of this refresh's response> == 'APPROVED'`, and stored whenever it differs from the recorded state
   R9  freshness: target sha, labels and status map are replaced by what this refresh read from GitHub whenever they differ; push /
       pull_request / pull_request_review events reach notify_github_changed and batch callbacks reach notify_batch_changed
+  R11 the merge decision is about the batch whose currency it checks: an abstract execution of PR.is_mergeable (self-helpers inlined) over the finite
+      domain of build states (the constants written anywhere in ci/ci) x "CI's own status entry known not to be SUCCESS", split at disjunctive
+      facts, narrowed by branch edges, asserts (normal continuation only), `return False` guards and the returned conjunction, shows that a true
+      result needs build_state == 'success' (or intended_github_status == SUCCESS, read as such only if set_build_state is found to recompute it at
+      every write) whenever CI's entry is SUCCESS.  The entry alone describes the batch that was current when PR._heal last posted; _heal posts
+      before it may call _start_build (checked: reset of build_state in _start_build, no later store of the entry), and try_to_merge follows in the
+      same pass.  Dually, every `self.batch = <new batch>` outside _update_batch is preceded on every path by a reset of build_state.
 Does not decide: the behaviour of GitHub; that the statuses GitHub reports belong to the head (CI asks for `commits(last: 1)`).
 """
 from __future__ import annotations
@@ -42,13 +49,14 @@ META = dict(
     category='other',
     text='Closed-world who-may-call scan of ci/ci/*.py for the merge request and its callers, CFG must-pass-through with branch-edge '
          'polarity for the is_mergeable gate and the one-merge-per-update exit, a fact extraction over the returned conjunction of '
-         'is_mergeable (helpers inlined, disjunctions weakened), an abstract-dict evaluation of the merge request body, and await-atomicity '
+         'is_mergeable (helpers inlined, disjunctions weakened), an abstract-dict evaluation of the merge request body, an abstract execution of is_mergeable over '
+         'the finite domain of build states (a true result is tied to the state of the batch whose target commit it compares), and await-atomicity '
          'rules for the dirty-flag / busy-guard protocol of the update coroutine.  Level `other`: the property quantifies over event '
          'histories; the rules are the structural necessary conditions on every code path, not a model of GitHub.',
     note='Trusted: CPython ast; engines/pyfacts CFG; asyncio atomicity between suspension points. Assumes GitHub refuses a merge whose pinned sha is not '
          'the head. Not decided: GitHub-side behaviour, `self.sha` (merge-commit sha) reset on head change is not needed by the gate and is not demanded.',
     technique='static analysis: who-may-call closure + CFG dominance with edge polarity + boolean fact extraction + abstract dict evaluation + '
-              'await-atomicity (test-and-clear, single flight)',
+              'await-atomicity (test-and-clear, single flight) + abstract execution over a finite enum domain with case splits',
     design_ref='DESIGN.md §3 C30',
 )
 
@@ -214,8 +222,8 @@ def _check_is_mergeable(ctx: Ctx, m: pf.Module, facts: Facts) -> None:
         if isinstance(st, ast.Expr) and isinstance(st.value, ast.Constant):
             continue
         rets = [n for n in pf.walk_shallow(st) if isinstance(n, ast.Return)]
-        if isinstance(st, ast.If) and not st.orelse and len(st.body) == 1 and isinstance(st.body[0], ast.Return) and _is_false_const(st.body[0].value):
-            pre += facts.false(st.test)
+        if isinstance(st, ast.If) and not st.orelse and st.body and isinstance(st.body[-1], ast.Return) and _is_false_const(st.body[-1].value) and len(rets) == 1:
+            pre += facts.false(st.test)  # `if c: [logging ...]; return False`: a true result needs not c
             continue
         if not rets:
             continue  # logging / assertions: cannot make the result true
@@ -880,6 +888,341 @@ def _check_tested_chain(ctx: Ctx, mods: List[pf.Module], m: pf.Module, facts: Fa
 
 
 # --------------------------------------------------------------------------------------
+# R11: the merge decision is about the batch whose currency it checks
+# --------------------------------------------------------------------------------------
+# is_up_to_date() looks at self.batch (whatever batch the PR currently holds, finished or not).  The only datum that describes the RESULT of that very
+# batch is self.build_state (R5: written from the status of the batch stored in self.batch, reset when the batch is replaced).  The posted status map
+# entry for CI describes the batch that was current when PR._heal last posted - _heal posts BEFORE it may start a new build.  So "tested against the
+# current target" needs build_state == 'success' at the decision, not only a SUCCESS entry in the map.
+
+BS_RELATED = ('build_state', 'intended_github_status', 'github_status_from_build_state')
+CI_ENTRY = (f'{S_STATUS}.get(GITHUB_STATUS_CONTEXT)', f'{S_STATUS}[GITHUB_STATUS_CONTEXT]', f'{S_STATUS}.get(GITHUB_STATUS_CONTEXT, None)')
+
+
+def _build_state_domain(ctx: Ctx, mods: List[pf.Module]) -> List[object]:
+    """The finite set of values build_state takes: the constants passed to set_build_state / assigned to .build_state anywhere in ci/ci."""
+    dom: List[object] = [None]
+    for mod in mods:
+        for n in ast.walk(mod.tree):
+            v = None
+            if isinstance(n, ast.Call) and isinstance(n.func, ast.Attribute) and n.func.attr == 'set_build_state' and len(n.args) == 1:
+                v = n.args[0]
+            elif isinstance(n, ast.Assign) and any(isinstance(t, ast.Attribute) and t.attr == 'build_state' for t in n.targets):
+                v = n.value
+            elif isinstance(n, ast.AnnAssign) and isinstance(n.target, ast.Attribute) and n.target.attr == 'build_state' and n.value is not None:
+                v = n.value
+            if v is None:
+                continue
+            if isinstance(v, ast.Constant):
+                if v.value not in dom:
+                    dom.append(v.value)
+            elif isinstance(v, ast.Name) and isinstance(n, (ast.Assign, ast.AnnAssign)):
+                continue  # `self.build_state = build_state` inside set_build_state: the parameter, covered by the call sites
+            else:
+                raise AnalysisError(f'{mod.rel}: build_state is given the computed value `{short(pf.nsrc(v), 50)}` - its domain is not a finite set of constants')
+    ctx.need('success' in dom, "no write of build_state 'success' found (anchor vanished)")
+    return dom
+
+
+def _bs_sat(e: ast.expr, dom: List[object]) -> Optional[Set[object]]:
+    """Members of the build_state domain for which the atomic test e (about self.build_state and constants only) is true; None if e is not such a test."""
+    if pf.nsrc(e) == 'self.build_state':
+        return {v for v in dom if v}
+    if not (isinstance(e, ast.Compare) and len(e.ops) == 1):
+        return None
+    l, r, op = e.left, e.comparators[0], e.ops[0]
+
+    def consts(x: ast.expr) -> Optional[List[object]]:
+        if isinstance(x, (ast.Tuple, ast.List, ast.Set)) and all(isinstance(z, ast.Constant) for z in x.elts):
+            return [z.value for z in x.elts]  # type: ignore[attr-defined]
+        return None
+    if isinstance(op, (ast.Eq, ast.NotEq, ast.Is, ast.IsNot)):
+        for x, c in ((l, r), (r, l)):
+            if pf.nsrc(x) == 'self.build_state' and isinstance(c, ast.Constant):
+                eq = {v for v in dom if v == c.value and type(v) is type(c.value)}
+                return eq if isinstance(op, (ast.Eq, ast.Is)) else set(dom) - eq
+        return None
+    if isinstance(op, (ast.In, ast.NotIn)) and pf.nsrc(l) == 'self.build_state' and consts(r) is not None:
+        cs = consts(r)
+        inn = {v for v in dom if any(v == c and type(v) is type(c) for c in cs)}  # type: ignore[union-attr]
+        return inn if isinstance(op, ast.In) else set(dom) - inn
+    return None
+
+
+class _BS:
+    """Abstract state on a path through is_mergeable: the build states still possible, whether CI's own entry of the status map is known NOT to be SUCCESS
+    (then the all-SUCCESS conjunct fails, given that _heal forces the entry - R5), and any related test that was not understood."""
+    __slots__ = ('allowed', 'ci_not_success', 'unknown')
+
+    def __init__(self, allowed: frozenset, ci_not_success: bool = False, unknown: Optional[str] = None):
+        self.allowed, self.ci_not_success, self.unknown = allowed, ci_not_success, unknown
+
+    def key(self):
+        return (self.allowed, self.ci_not_success, self.unknown)
+
+
+def _bs_narrow(fn: pf.FuncDef, facts: Facts, st: _BS, fs: List[Fact], dom: List[object]) -> List[_BS]:
+    """States after learning the facts fs (a disjunctive fact splits the state)."""
+    states = [st]
+    inlined = {id(e) for e, _ in fs if facts.inline(e, 1) is not None}
+    for e, pol in fs:
+        if id(e) in inlined:
+            continue
+        x = pf.expand_locals(fn, e, 4)
+        nxt: List[_BS] = []
+        for s0 in states:
+            # a disjunction: not (a and b)  /  (a or b)
+            if isinstance(x, ast.BoolOp) and ((isinstance(x.op, ast.And) and not pol) or (isinstance(x.op, ast.Or) and pol)):
+                for d in x.values:
+                    nxt += _bs_narrow(fn, facts, s0, facts.true(d) if pol else facts.false(d), dom)
+                continue
+            if isinstance(x, ast.UnaryOp) and isinstance(x.op, ast.Not):
+                nxt += _bs_narrow(fn, facts, s0, [(x.operand, not pol)], dom)
+                continue
+            if isinstance(x, ast.BoolOp):
+                nxt += _bs_narrow(fn, facts, s0, facts.true(x) if pol else facts.false(x), dom)
+                continue
+            sat = _bs_sat(x, dom)
+            if sat is not None:
+                keep = sat if pol else set(dom) - sat
+                nxt.append(_BS(s0.allowed & frozenset(keep), s0.ci_not_success, s0.unknown))
+                continue
+            # the intended status is recomputed from build_state at every set_build_state; SUCCESS only for 'success' (R5)
+            hit = False
+            for lhs in ('self.intended_github_status', 'self.github_status_from_build_state()'):
+                if lhs == 'self.intended_github_status' and lhs in pf.nsrc(x):
+                    _intended_tracks_build_state(fn)
+                if guards.is_eq_fact(x, pol, lhs, 'GithubStatus.SUCCESS'):
+                    nxt.append(_BS(s0.allowed & frozenset(['success']), s0.ci_not_success, s0.unknown))
+                    hit = True
+                elif guards.is_neq_fact(x, pol, lhs, 'GithubStatus.SUCCESS'):
+                    nxt.append(s0)
+                    hit = True
+            if hit:
+                continue
+            # CI's own entry of the map compared with the intended status: equal -> the entry is SUCCESS exactly when build_state is 'success'
+            for lhs in CI_ENTRY:
+                for rhs in ('self.intended_github_status', 'self.github_status_from_build_state()'):
+                    if hit:
+                        break
+                    if guards.is_eq_fact(x, pol, lhs, rhs):
+                        if rhs == 'self.intended_github_status':
+                            _intended_tracks_build_state(fn)
+                        nxt.append(_BS(s0.allowed & frozenset(['success']), s0.ci_not_success, s0.unknown))
+                        nxt.append(_BS(s0.allowed - frozenset(['success']), True, s0.unknown))
+                        hit = True
+                    elif guards.is_neq_fact(x, pol, lhs, rhs):
+                        nxt.append(s0)
+                        hit = True
+            if hit:
+                continue
+            # CI's own entry of the map
+            for lhs in CI_ENTRY:
+                if guards.is_neq_fact(x, pol, lhs, 'GithubStatus.SUCCESS'):
+                    nxt.append(_BS(s0.allowed, True, s0.unknown))
+                    hit = True
+                elif guards.is_eq_fact(x, pol, lhs, 'GithubStatus.SUCCESS'):
+                    nxt.append(s0)
+                    hit = True
+            if hit:
+                continue
+            if isinstance(x, ast.Compare) and len(x.ops) == 1 and pf.nsrc(x.left) == 'GITHUB_STATUS_CONTEXT' and pf.nsrc(x.comparators[0]) == S_STATUS \
+                    and isinstance(x.ops[0], (ast.In, ast.NotIn)):
+                absent = isinstance(x.ops[0], ast.NotIn) == pol
+                nxt.append(_BS(s0.allowed, s0.ci_not_success or absent, s0.unknown))
+                continue
+            txt = pf.nsrc(x)
+            if any(w in txt for w in BS_RELATED):
+                nxt.append(_BS(s0.allowed, s0.ci_not_success, s0.unknown or (('' if pol else 'not ') + short(txt, 70))))
+            else:
+                nxt.append(s0)
+        states = nxt
+    return states
+
+
+_INTENDED_PREMISE: Dict[str, Optional[str]] = {}
+
+
+def _intended_tracks_build_state(fn: pf.FuncDef) -> None:
+    """Premise for reading `intended_github_status == SUCCESS` as `build_state == 'success'`: build_state is written only by set_build_state (and the
+    constructor), and set_build_state recomputes the intended status from the new build state.  Declines when that shape is not found."""
+    if 'why' not in _INTENDED_PREMISE:
+        why = None
+        m = pf.load(F)
+        for qual, f2 in m.functions():
+            for n in pf.walk_shallow(f2):
+                tg = n.targets if isinstance(n, ast.Assign) else ([n.target] if isinstance(n, (ast.AnnAssign, ast.AugAssign)) else [])
+                for t in tg:
+                    if isinstance(t, ast.Attribute) and t.attr == 'build_state' and qual not in ('PR.set_build_state', 'PR.__init__'):
+                        why = why or f'{qual} writes build_state directly'
+                    if isinstance(t, ast.Attribute) and t.attr == 'intended_github_status' and qual not in ('PR.set_build_state', 'PR.__init__'):
+                        why = why or f'{qual} writes intended_github_status'
+        sb = m.func('PR.set_build_state')
+        cfg = pf.cfg(sb)
+        w = [n for n in cfg.nodes if isinstance(n.ast, ast.Assign) and any(pf.nsrc(t) == 'self.build_state' for t in n.ast.targets)]
+        r = [n for n in cfg.nodes if isinstance(n.ast, ast.Assign) and any(pf.nsrc(t) == 'self.intended_github_status' for t in n.ast.targets)
+             and _deep(sb, n.ast.value) == 'self.github_status_from_build_state()']
+        if len(w) != 1 or len(r) != 1:
+            why = why or 'set_build_state: write of build_state / recomputation of intended_github_status not recognised'
+        else:
+            # from the write, the exit is reached only through the recomputation or through the edge `intended == current intended`
+            def same(e: ast.expr, pol: bool) -> bool:
+                return _deep(sb, e) in ('self.github_status_from_build_state() != self.intended_github_status',
+                                        'self.intended_github_status != self.github_status_from_build_state()') and not pol
+            path = guards.unguarded_path(cfg, Facts(None), [w[0]], lambda n: n is cfg.exit, same, avoid=lambda n: n is r[0])
+            if path is not None:
+                why = why or 'set_build_state can change build_state without recomputing intended_github_status'
+        _INTENDED_PREMISE['why'] = why
+    if _INTENDED_PREMISE['why'] is not None:
+        raise AnalysisError(f"PR.is_mergeable tests intended_github_status, but it cannot be read as a statement about build_state: {_INTENDED_PREMISE['why']}")
+
+
+def _stale_ci_entry(ctx: Ctx, m: pf.Module) -> Optional[str]:
+    """Can PR._heal return with the CI entry of the status map older than build_state?  Returns a description of the path (the entry is stored, then
+    _start_build - which resets build_state - runs, and nothing stores the entry again), None if every such reset is followed by a new store."""
+    sb = m.func('PR._start_build')
+    resets = [n for n in pf.walk_shallow(sb) if (isinstance(n, ast.Call) and pf.nsrc(n.func) == 'self.set_build_state' and n.args and _is_none(n.args[0]))
+              or (isinstance(n, ast.Assign) and any(pf.nsrc(t) == 'self.build_state' for t in n.targets) and _is_none(n.value))]
+    if not resets:
+        return None
+    fn = m.func('PR._heal')
+    cfg = pf.cfg(fn)
+    starts = [n for n in cfg.nodes if any(pf.nsrc(c.func) == 'self._start_build' for c in pf.node_calls(n))]
+    if not starts:
+        return None
+
+    def is_store(n: pf.Node) -> bool:
+        return isinstance(n.ast, ast.Assign) and any(pf.nsrc(t) == f'{S_STATUS}[GITHUB_STATUS_CONTEXT]' for t in n.ast.targets)
+    for s0 in starts:
+        path = cfg.path_avoiding(s0, lambda n: n is cfg.exit, is_store)
+        if path is not None:
+            return f'PR._heal: `{short(s0.text(), 50)}`@{s0.lineno} (build_state := None, self.batch := the new batch) -> return, no store of {S_STATUS}[GITHUB_STATUS_CONTEXT] after it'
+    return None
+
+
+def _check_decision_about_current_batch(ctx: Ctx, mods: List[pf.Module], m: pf.Module, facts: Facts) -> None:
+    dom = _build_state_domain(ctx, mods)
+    ctx.extra_cov['build_state_domain'] = [repr(v) for v in dom]
+    # (a) is_mergeable: abstract execution over (possible build states, CI entry known not SUCCESS), split at disjunctive facts
+    m_inl, _il = inline.inline_methods(m, 'PR', 'is_mergeable')
+    fn = m_inl.func('PR.is_mergeable')
+    cfg = pf.cfg(fn)
+    for n in cfg.nodes:
+        if n.ast is not None and n.kind in ('stmt',):
+            for c in pf.node_calls(n):
+                ctx.need(pf.nsrc(c.func) != 'self.set_build_state', 'PR.is_mergeable writes build_state (unrecognised shape)')
+            if isinstance(n.ast, ast.Assign):
+                ctx.need(not any(pf.nsrc(t) in ('self.build_state', 'self.intended_github_status') for t in n.ast.targets),
+                         'PR.is_mergeable writes build_state / intended_github_status (unrecognised shape)')
+    start = _BS(frozenset(dom))
+    seen: Dict[Tuple[int, tuple], Optional[Tuple[int, tuple]]] = {(cfg.entry.id, start.key()): None}
+    by_id = {n.id: n for n in cfg.nodes}
+    queue: List[Tuple[pf.Node, _BS]] = [(cfg.entry, start)]
+    bad: Optional[Tuple[Tuple[int, tuple], _BS]] = None
+    undecided: Optional[Tuple[Tuple[int, tuple], _BS]] = None
+    n_true_returns = 0
+    counted: Set[int] = set()
+    while queue:
+        n, st = queue.pop(0)
+        if n.kind == 'return' and isinstance(n.ast, ast.Return):
+            v = n.ast.value
+            if v is None or (isinstance(v, ast.Constant) and not v.value):
+                continue
+            if n.id not in counted:
+                counted.add(n.id)
+                n_true_returns += 1
+            finals = [st] if isinstance(v, ast.Constant) else _bs_narrow(fn, facts, st, facts.true(v), dom)
+            for f in finals:
+                if not f.allowed or f.allowed <= frozenset(['success']) or f.ci_not_success:
+                    continue
+                if f.unknown is not None:
+                    undecided = undecided or ((n.id, st.key()), f)
+                else:
+                    bad = bad or ((n.id, st.key()), f)
+            continue
+        for mm, lab in n.succ:
+            if n.kind == 'test' and isinstance(n.ast, ast.expr) and lab in ('T', 'F'):
+                outs = _bs_narrow(fn, facts, st, facts.edge(n, lab), dom)
+            elif isinstance(n.ast, ast.Assert) and lab != 'exc':
+                outs = _bs_narrow(fn, facts, st, facts.true(n.ast.test), dom)
+            elif isinstance(n.ast, (ast.Assign, ast.AugAssign, ast.AnnAssign, ast.Delete)) and lab != 'exc' and S_STATUS in pf.nsrc(n.ast).split('=')[0]:
+                # the decision procedure itself rewrites the status map
+                val = _deep(fn, n.ast.value) if isinstance(n.ast, ast.Assign) and len(n.ast.targets) == 1 \
+                    and pf.nsrc(n.ast.targets[0]) == f'{S_STATUS}[GITHUB_STATUS_CONTEXT]' else None
+                if val in ('self.intended_github_status', 'self.github_status_from_build_state()'):
+                    if val == 'self.intended_github_status':
+                        _intended_tracks_build_state(fn)
+                    # the entry is SUCCESS exactly when build_state is 'success' from here on
+                    outs = [_BS(st.allowed & frozenset(['success']), st.ci_not_success, st.unknown), _BS(st.allowed - frozenset(['success']), True, st.unknown)]
+                elif val in ('GithubStatus.PENDING', 'GithubStatus.FAILURE'):
+                    outs = [_BS(st.allowed, True, st.unknown)]
+                else:
+                    outs = [_BS(st.allowed, False, st.unknown or f'write `{short(pf.nsrc(n.ast), 60)}`')]
+            else:
+                outs = [st]
+            for o in outs:
+                if not o.allowed:
+                    continue  # infeasible
+                k = (mm.id, o.key())
+                if k in seen:
+                    continue
+                seen[k] = (n.id, st.key())
+                queue.append((mm, o))
+    ctx.need(n_true_returns >= 1, 'PR.is_mergeable: no result-bearing return found')
+    ctx.unit('is_mergeable_abstract_states', len(seen))
+    cons = f'{F}::PR.is_mergeable::build state of the batch checked by is_up_to_date'
+    if bad is None and undecided is not None:
+        raise AnalysisError(f'PR.is_mergeable: a true result is reachable without `build_state == \'success\'`, past the unrecognised related test `{undecided[1].unknown}` - cannot decide')
+    if bad is None:
+        ctx.ok('R11', cons, {'states': len(seen), 'true_returns': n_true_returns})
+    else:
+        k: Optional[Tuple[int, tuple]] = bad[0]
+        nodes: List[pf.Node] = []
+        while k is not None:
+            nodes.append(by_id[k[0]])
+            k = seen[k]
+        nodes.reverse()
+        left = sorted(repr(v) for v in bad[1].allowed if v != 'success')
+        stale = _stale_ci_entry(ctx, m)
+        if stale is None:
+            raise AnalysisError('PR.is_mergeable no longer establishes build_state == \'success\' and whether the CI entry of the status map can be older than '
+                                'build_state (PR._heal / PR._start_build shape changed) cannot be decided')
+        ctx.bad('R11', cons,
+                f'is_mergeable can return a true value with build_state in {{{", ".join(left)}}} while CI\'s own status entry is SUCCESS [{_fmt_path(nodes)}]: the SUCCESS '
+                f'entry describes the batch that was current when _heal last posted, is_up_to_date() looks at the batch the PR holds now. {stale}. History: PR approved and '
+                'green against target commit T1; the target moves to T2 (CI merges another PR); in one _update pass _heal records SUCCESS, then re-tests the PR '
+                '(_start_build: build_state None, new batch with target_sha=T2, still running); try_to_merge follows in the same pass: every status SUCCESS, '
+                'is_up_to_date() true -> merged onto T2 without a finished test against T2', m.path, nodes[-1].lineno,
+                extra={'possible_build_states': left, 'path': [x.text() for x in nodes]})
+    # (b) build_state describes self.batch: whoever installs another batch object resets build_state first
+    n_inst = 0
+    for qual, f2 in m.functions():
+        if not qual.startswith('PR.') or qual in ('PR._update_batch', 'PR.__init__'):
+            continue
+        cfg2 = None
+        for n in pf.walk_shallow(f2):
+            if not (isinstance(n, ast.Assign) and any(pf.nsrc(t) == 'self.batch' for t in n.targets)) or _is_none(n.value):
+                continue
+            cfg2 = cfg2 or pf.cfg(f2)
+            goals = cfg2.node_of(n)
+            ctx.need(goals, f'{qual}: `{short(pf.nsrc(n), 40)}` not in CFG')
+
+            def is_reset(x: pf.Node) -> bool:
+                for c in pf.node_calls(x):
+                    if pf.nsrc(c.func) == 'self.set_build_state' and len(c.args) == 1 and isinstance(c.args[0], ast.Constant) and c.args[0].value != 'success':
+                        return True
+                return isinstance(x.ast, ast.Assign) and any(pf.nsrc(t) == 'self.build_state' for t in x.ast.targets) and isinstance(x.ast.value, ast.Constant) \
+                    and x.ast.value.value != 'success'
+            path = cfg2.path_avoiding(cfg2.entry, lambda x: any(x is g for g in goals), is_reset)
+            n_inst += 1
+            ctx.check(path is None, 'R11', f'{F}::{qual}::{short(pf.nsrc(n), 50)}',
+                      'self.batch is replaced by another batch without build_state being reset first ' + (f'[{_fmt_path(path)}]' if path else '')
+                      + ": build_state keeps the result of the previous batch, so an already green PR that is re-tested against a moved target has build_state "
+                      "'success', a SUCCESS status entry and an up-to-date (still running) batch at once and is merged untested", m.path, n.lineno)
+    ctx.need(n_inst >= 1, 'no `self.batch = <new batch>` outside PR._update_batch found (anchor vanished)')
+
+
+# --------------------------------------------------------------------------------------
 # R6 / R7: dirty flags (test-and-clear) and the single-flight guard of the update coroutine
 # --------------------------------------------------------------------------------------
 
@@ -1458,7 +1801,8 @@ def _group(ctx: Ctx, errors: List[str], fn: Callable, *args) -> None:
 def run(ctx: Ctx) -> None:
     ctx.explanation = ('Who-may-call closure over ci/ci/*.py for the GitHub merge request, PR.merge and try_to_merge; CFG must-pass-through with branch polarity '
                        'for the is_mergeable gate, the single-merge exit and the tested chain; fact extraction over the conjunction returned by is_mergeable; '
-                       'abstract dict evaluation of the request body; await-atomicity of the dirty-flag test-and-clear and of the busy guard of the update coroutine.')
+                       'abstract dict evaluation of the request body; await-atomicity of the dirty-flag test-and-clear and of the busy guard of the update coroutine; '
+                       'abstract execution of is_mergeable over (possible build states x CI entry not SUCCESS).')
     ctx.rule('R1', 'merge request only in PR.merge; PR.merge only from try_to_merge behind `pr.is_mergeable()`; try_to_merge only from _update; no GraphQL merge mutation', 4)
     ctx.rule('R2', 'is_mergeable is a conjunction containing approved, statuses non-empty, all SUCCESS, batch target_sha == target sha, no DO_NOT_MERGE label', 6)
     ctx.rule('R3', 'a successful merge ends try_to_merge (no second merge) after resetting the target sha', 2)
@@ -1471,6 +1815,8 @@ def run(ctx: Ctx) -> None:
     ctx.rule('R9', 'target sha, labels and status map are replaced by what this refresh read from GitHub whenever they differ; push / pull_request / review / batch '
              'events reach the refresh', 7)
     ctx.rule('R10', 'a check counts as succeeded only for GitHub states SUCCESS / NEUTRAL, and every required check reported for the head enters the status map', 4)
+    ctx.rule('R11', "the merge decision is about the batch whose currency it checks: is_mergeable returns true only with build_state == 'success' established "
+             "(or CI's own status entry not SUCCESS), and build_state is reset wherever self.batch is replaced", 3)
     ctx.assume('GitHub rejects PUT …/merge when the pinned sha is not the pull request head')
     ctx.assume('asyncio: a coroutine is atomic between two suspension points (await / async with / async for)')
     mods = [pf.load(rel) for rel in pf.walk_py(['ci/ci'])]
@@ -1490,6 +1836,7 @@ def run(ctx: Ctx) -> None:
     _group(ctx, errors, lambda: _check_one_merge(ctx, m, facts, merge_calls) if merge_calls else None)
     _group(ctx, errors, _check_pin_and_reset, ctx, m, sites)
     _group(ctx, errors, _check_tested_chain, ctx, mods, m, facts)
+    _group(ctx, errors, _check_decision_about_current_batch, ctx, mods, m, facts)
     _group(ctx, errors, _check_flags, ctx, mods)
     _group(ctx, errors, _check_review_provenance, ctx, mods, m, facts)
     _group(ctx, errors, _check_freshness, ctx, mods, m)
